@@ -68,8 +68,9 @@ static std::string run_case(const Case &c0, std::string &msg) {
             if (a.code != REG_ACCESS_SUCCESS) { msg = vp::fmt("read of a fully mapped range [%u,+%u) refused: %s at %u", c.addr, c.n, code_name(a.code), a.address); return "read:refused-although-mapped"; }
             for (uint32_t i = 0; i < c.n; i++) {
                 const AreaD &ar = c.t.areas[(size_t)m.area_of(c.addr + i)];
-                uint16_t want = ar.readable ? m.word(c.addr + i) : 0;
-                if (w[pre + i] != want) { msg = vp::fmt("word %u of the result is %04x, expected %04x (%s area)", i, w[pre + i], want, ar.readable ? "readable" : "write-only"); return ar.readable ? "read:wrong-word" : "read:write-only-not-zero"; }
+                bool rd = ar.readable && ar.has_read;   // an area without a read callback cannot be read, whatever its flag says
+                uint16_t want = rd ? m.word(c.addr + i) : 0;
+                if (w[pre + i] != want) { msg = vp::fmt("word %u of the result is %04x, expected %04x (%s area)", i, w[pre + i], want, rd ? "readable" : "write-only"); return rd ? "read:wrong-word" : "read:write-only-not-zero"; }
             }
         } else {
             if (a.code == REG_ACCESS_SUCCESS) { msg = vp::fmt("read touching the unmapped address %ld succeeded", unm); return "read:unmapped-accepted"; }
@@ -194,6 +195,7 @@ static void run() {
     relayout_phase(rng, (a.thorough() ? 400000 : 40000) / a.nshards);
     for (size_t ti = 0; ti < ntables && !vp::too_many_failures(); ti++) {
         Case c; c.t = gen_table(rng, (ti % 60 == 59) ? wide : (a.thorough() && ti % 8 == 7) ? big : fo);
+        if (ti % 3 == 1) for (auto &ar : c.t.areas) { bool hasreg = false; for (auto &r : c.t.regs) if (r.addr >= ar.base && r.addr < ar.end()) hasreg = true; if (!hasreg) ar.has_read = false; }   // register-less areas without read callback (a reserved window, a write-only driver)
         rm::Space m; m.init(c.t);
         for (auto &ar : m.mem) for (auto &w : ar) w = (uint16_t)(rng.next() | 1);   // never zero: a zeroed write-only area must be distinguishable
         c.content = m.mem;
